@@ -90,7 +90,7 @@ def parse_obs(field):
 
 def oracles(line, hfields, findings, pid):
     """Oracles of C07/C08 evaluated on what the implementation did.  Returns (violations, known)."""
-    ops = line.split("\t")[2:]
+    ops = [o for o in line.split("\t")[2:] if not o.startswith("lf=")]   # lf= is the model's fault list, not an op
     viol, known = [], []
     prev = {"A": {}, "B": {}, "R": {}}
     written = {"A": {}, "B": {}}     # digests whose Cas.Write (wrapper) returned ok in the current process -> local-only before?
@@ -207,6 +207,17 @@ def run_inprocess(out, pid, n, harness, findings, local_only=False):
         lines.insert(0, "case\tf\tc:A:w:write:%s:%s\treset:A\t%s" % (ds, vlib.hx(small), pub))
         lines.insert(0, "case\te\tc:A:w:write:%s:%s\t%s" % (ds, vlib.hx(small), pub))
         lines.insert(0, "case\t-\tc:A:w:write:%s:%s\tb:B:w:del:cas:%s\t%s" % (ds, vlib.hx(small), ds, pub))
+        # LOCAL storage faults (the model's lfault list, made to happen in the real FileSystemCache): before anything is read
+        # (the path's directory is a regular file: MkdirAll fails) and after everything was read (the rename lands on a
+        # non-empty directory: a key below the one being set exists).  A tee'd Set must not publish a prefix in the remote.
+        empty = b""
+        for c in (BIG, small, empty):
+            d2 = dg(c)
+            lines.insert(0, "case\t-\tlf=e\tlbreak:A:cas\tc:A:w:write:%s:%s\tlfix:A:cas\tc:B:w:load:%s\tc:A:w:load:%s" % (d2, vlib.hx(c), d2, d2))
+        lines.insert(0, "case\t-\tlf=e\tlbreak:A:target\tr:A:w:write:r1:%s\tlfix:A:target\tr:B:w:load:r1\tr:A:w:load:r1" % ds)
+        lines.insert(0, "case\t-\tlf=e\tlbreak:A:taint\tb:A:w:set:taint:k1:%s\tlfix:A:taint\tb:B:w:get:taint:k1\tb:B:w:ex:taint:k1" % vlib.hx(BIG))
+        for c in (BIG, small):
+            lines.insert(0, "case\t-\tlf=o,l\tb:A:l:set:taint:k1/x:%s\tb:A:w:set:taint:k1:%s\tb:B:w:get:taint:k1\tb:B:l:get:taint:k1" % (vlib.hx(small), vlib.hx(c)))
     hout, mout = run_cases(lines, harness, drv)
     stats = {"sequences": n, "ops": 0, "distinct": 0, "mismatching_sequences": 0, "oracle_failures": 0, "known": 0,
              "remote_calls": 0, "faulted_calls": 0, "samples": []}
